@@ -5,12 +5,13 @@ from fractions import Fraction
 
 import numpy as np
 
+import msgather
 from common import ModelError, R, cfl, fl, max_rel_err
 
 from common import wiring_pre_build as pre_build  # noqa: E402,F401
 
 LEAN_MODULES = ["PyomaVerif.Props.C04", "PyomaVerif.Mutants.C04", "PyomaVerif.Props.WiringRun", "PyomaVerif.Props.C04C13",
-                "PyomaVerif.Props.C04C06", "PyomaVerif.Props.C04Inv", "PyomaVerif.Props.WiringStore", "PyomaVerif.Props.WiringClass", "PyomaVerif.Props.WiringCalls"]
+                "PyomaVerif.Props.C04C06", "PyomaVerif.Props.C04Inv", "PyomaVerif.Props.WiringStore", "PyomaVerif.Props.WiringClass", "PyomaVerif.Props.WiringCalls", "PyomaVerif.Props.C04Split"]
 THEOREMS = [
     # depth round: the driver's inverse gaussInv, verified as written, satisfies InvContract (Props/C04Inv.lean)
     "PV.C04.C04_gaussInv_sound",
@@ -18,6 +19,17 @@ THEOREMS = [
     "PV.C04.C04_gaussInv_none_iff",
     "PV.C04.C04_gaussInv_contract",
     "PV.C04.C04_identical_refs_checked",
+    # the reference/roving split composed with the merging: user's datasets + ref_ind (any order) -> pre_multisetup -> every
+    # SD_est call of SD_PreGER -> merged == single-setup matrix (Props/C04Split.lean, Model/MsGather.lean); the object's data
+    # after every preprocessing step is that split (PV.C03Split.C03_data_every_step, through PV.C14.C14_invariant_multi)
+    "PV.C04Split.C04_identical_refs_rows",
+    "PV.C04Split.C04_handover",
+    "PV.C04Split.C04_identical_refs_split",
+    "PV.C04Split.C04_identical_refs_split_sd",
+    "PV.C04Split.sd_per_ne",
+    "PV.C04Split.sd_cor_ne",
+    "PV.MsGather.preMultisetupRec_ok",
+    "PV.MsGather.vstack_gather",
     # C04 o C06 (o C13): multi-setup FDD end to end (Props/C04C06.lean)
     "PV.C04C06.sdEst_rank_one_entry",
     "PV.C04C06.sdEst_superposition",
@@ -72,7 +84,8 @@ RULE = (
     "(complex inverse by exact elimination) and emits the call trace it expects; trace and freq compared exactly, values at "
     "1e-9 of the largest entry when every reference block has cond < 1e5 (else counted as skipped), exceptions on a "
     "malformed stream (no setups, unknown method, ragged records, differing reference counts, duplicated reference "
-    "channel). oracle: one recording cut into 2..4 setups with 1..3 shared references anywhere in the channel lists, "
+    "channel); the hand-over from the user's datasets and ref_ind (op ms_gather on symbolic datasets): MultiSetup_PreGER.data "
+    "and both arguments of every SD_est call through the three classes, entry by entry. oracle: one recording cut into 2..4 setups with 1..3 shared references anywhere in the channel lists, "
     "per-setup gains, both estimators, nxseg 64..1024, pov in {0,.25,.5,.75}: merged == mean(g^2) * single-setup "
     "SD_est([refs; rov...], refs) at 1e-8 of the largest entry, same grid; gain relation on independent recordings. "
     "distinct = distinct (method, nxseg, pov, n_ref, roving counts, via) configurations"
@@ -450,6 +463,46 @@ def correspondence(ctx):
         W = ctx.model("cx_inv", G=[[[R(z.real), R(z.imag)] for z in row] for row in G])
         Wm = np.array([[cfl(z) for z in row] for row in W])
         ctx.corr("np.linalg.inv[stand-in]", max_rel_err(np.linalg.inv(G), Wm) <= 1e-12, None, None, None, ("inv", n))
+    # (5) the hand-over from the user's datasets and ref_ind (Model/MsGather.lean, op ms_gather, symbolic datasets): the
+    #     object's data and both arguments of EVERY SD_est call of SD_PreGER, entry by entry, through the three classes
+    from pyoma2.algorithms.fdd import EFDD_MS, FDD_MS
+    from pyoma2.algorithms.plscf import pLSCF_MS
+    from pyoma2.setup.multi import MultiSetup_PreGER
+
+    for k in range(ctx.n(15, 150)):
+        g = ctx.nprng()
+        nxseg = rng.choice([8, 16])
+        shapes, ref_ind = msgather.split_case(rng, "valid", nmin=4 * nxseg, nmax=6 * nxseg, same_nref=True)
+        if len(shapes) < 2:
+            shapes, ref_ind = shapes * 2, ref_ind * 2
+        datasets = [g.standard_normal(tuple(sh)) for sh in shapes]
+        fs = rng.choice([1.0, 100.0, 51.2])
+        method = rng.choice(["per", "cor"])
+        pov = rng.choice([0.0, 0.25, 0.5, 0.6])
+        cls = classes[k % 3]
+        ms = MultiSetup_PreGER(fs, [list(r) for r in ref_ind], [d.copy() for d in datasets])
+        if cls == "FDD_MS":
+            alg = FDD_MS(name="a", nxseg=nxseg, method_SD=method, pov=pov)
+        elif cls == "EFDD_MS":
+            alg = EFDD_MS(name="a", nxseg=nxseg, method_SD=method, pov=pov)
+        else:
+            alg = pLSCF_MS(name="a", ordmax=4, nxseg=nxseg, method_SD=method, pov=pov)
+        ms.add_algorithms(alg)
+        with SdLog() as log:
+            try:
+                ms.run_all()
+            except Exception:  # noqa: BLE001  (a later stage may fail on random data; the calls were made)
+                ctx.count("handover_tail_raised")
+        m = ctx.model("ms_gather", shapes=shapes, ref_ind=ref_ind, fs=R(fs), nxseg=nxseg, pov=R(pov), method=method)
+        ok = "raise" not in m and msgather.split_agrees(m, ("ok", ms.data), datasets) and len(log.calls) == len(m["sd_calls"]) == 2 * len(shapes)
+        if ok:
+            for c, mc in zip(log.calls, m["sd_calls"]):
+                ok = ok and msgather.same(c["Yall"], msgather.realise(mc["Yall"], datasets))
+                ok = ok and msgather.same(c["Yref"], msgather.realise(mc["Yref"], datasets))
+                ok = ok and int(c["nxseg"]) == mc["nxseg"] and Fraction(c["pov"]) == Fraction(mc["pov"])
+        ctx.corr("fdd.SD_PreGER[hand-over]", bool(ok), {"shapes": shapes, "ref_ind": ref_ind, "cls": cls, "method": method}, None, None,
+                 ("handover", cls, method, len(shapes), len(ref_ind[0])))
+        ctx.count(f"handover_{cls}")
 
 
 # ----------------------------------------------------------------------------- oracle (from the statement)
